@@ -759,6 +759,31 @@ Qed.
 Theorem actor_wf K s : reachable K s -> swf K s.
 Proof. induction 1; [apply swf_init|eapply swf_step; eauto]. Qed.
 
+Lemma csig_waiting_none cs : csig cs = NWaiting NNone <-> cphase cs = PParked NNone.
+Proof. unfold csig. destruct (cphase cs) as [| | | |[]| |]; cbn; split; congruence. Qed.
+
+(* A, in the vocabulary of tokio's Notify. *)
+Theorem notify_wf_sig K s :
+  reachable K s ->
+  NoDup (waiters s) /\
+  (forall c, In c (waiters s) <-> exists cs, get s c = Some cs /\ csig cs = NWaiting NNone) /\
+  (permit s = true -> waiters s = []) /\
+  (deleted s = false -> calls s = 0) /\
+  length (mailbox s) <= K /\
+  (exited s = true -> deleted s = true /\ mailbox s = []) /\
+  (forall c cs snap, get s c = Some cs -> cphase cs = PU2 snap None ->
+     exists m, In (RPull c m) (mailbox s)).
+Proof.
+  intros R. destruct (notify_wf K s R) as [A B C]. destruct (actor_wf K s R) as [X M U CL].
+  repeat split; auto.
+  - intros H. apply B in H. destruct H as (cs & G & P). exists cs. split; auto. apply csig_waiting_none; auto.
+  - intros (cs & G & P). apply B. exists cs. split; auto. apply csig_waiting_none; auto.
+  - intros Hd. rewrite CL, Hd. reflexivity.
+  - apply X; auto.
+  - apply X; auto.
+  - intros c cs snap G P. apply U. exists cs, snap. auto.
+Qed.
+
 (* ------------------------------------------------------------------ *)
 (* B. No lost wake-up                                                  *)
 
@@ -933,6 +958,24 @@ Proof.
   intros R Hd Hb. destruct (reachableR_tokinv K s R Hd Hb) as [T|[(c & cs & G & T)|T]]; auto.
   right. left. exists c, cs. split; auto. unfold owes.
   destruct (cphase cs) as [[]|? []| | |[]| |]; cbn in T; try discriminate; auto.
+Qed.
+
+(* The same for the coarser exclusion "no drop of an owing consumer at all". *)
+Definition bad_drop_strict (s : state) (l : label) : bool :=
+  match l with
+  | LCancel c | LTimeout c | LDelExit c => owing_at s c
+  | _ => false
+  end.
+
+Inductive reachableS (K : nat) : state -> Prop :=
+| reachS_init : reachableS K init
+| reachS_step s l s' :
+    reachableS K s -> bad_drop_strict s l = false -> step K s l = Some s' -> reachableS K s'.
+
+Lemma reachableS_R K s : reachableS K s -> reachableR K s.
+Proof.
+  induction 1 as [|s l s' R IH NB H]; [constructor|]. econstructor; eauto.
+  destruct l; cbn in *; auto; rewrite NB; reflexivity.
 Qed.
 
 Definition is_parked (p : phase) : bool := match p with PParked _ => true | _ => false end.
@@ -1861,6 +1904,93 @@ Proof.
     specialize (IH s1 s' Hls H H0). lia.
 Qed.
 
+(* Spurious rounds.  A consumer starts a new round (goes back to U0) only by
+   consuming a pending notification, and only actor turns of notifying
+   requests create pending notifications, at most one per turn. *)
+Definition pend (s : state) : nat :=
+  b2n (permit s) + sumf (fun cs => ctk (calls s) (cphase cs)) (conss s).
+
+Lemma pend_setc s c f cs :
+  get s c = Some cs ->
+  pend (setc c f s) + ctk (calls s) (cphase cs) = pend s + ctk (calls s) (cphase (f cs)).
+Proof.
+  intros G. unfold pend. cbn [permit calls conss setc set_conss].
+  pose proof (sumf_upd (fun cs => ctk (calls s) (cphase cs)) (conss s) c f cs G). cbn beta in H. lia.
+Qed.
+
+Lemma pend_setc_inv s c f :
+  (forall x, ctk (calls s) (cphase (f x)) = ctk (calls s) (cphase x)) -> pend (setc c f s) = pend s.
+Proof.
+  intros Hf. destruct (get s c) as [cs|] eqn:G.
+  - pose proof (pend_setc s c f cs G). rewrite Hf in H. lia.
+  - unfold pend. cbn [permit calls conss setc set_conss]. rewrite sumf_upd_none; auto.
+Qed.
+
+Lemma pend_notify_one s : pend (notify_one s) <= pend s + 1.
+Proof.
+  unfold notify_one. destruct (waiters s) as [|w ws].
+  - unfold pend. cbn [permit calls conss set_permit]. destruct (permit s); cbn [b2n]; lia.
+  - change (pend (set_waiters ws (setc w (wake NOne) s))) with (pend (setc w (wake NOne) s)).
+    destruct (get s w) as [cs|] eqn:G.
+    + pose proof (pend_setc s w (wake NOne) cs G).
+      assert (ctk (calls s) (cphase (wake NOne cs)) <= ctk (calls s) (cphase cs) + 1); [|lia].
+      unfold wake. destruct (cphase cs) as [| | | |[]| |] eqn:E; cbn [cphase with_phase]; rewrite ?E; cbn [ctk]; lia.
+    + unfold pend. cbn [permit calls conss setc set_conss]. rewrite sumf_upd_none; auto. lia.
+Qed.
+
+Lemma pend_deliver s c r : pend (deliver c r s) = pend s.
+Proof.
+  apply pend_setc_inv. intros x. unfold deliver_f.
+  destruct (cphase x) as [| |sn [|]| | | |] eqn:E; cbn [cphase with_phase]; rewrite ?E; reflexivity.
+Qed.
+
+Theorem restart_consumes K s c cs s' cs' o :
+  step K s (LCons c) = Some s' -> get s c = Some cs -> rank (cphase cs) <= 2 ->
+  get s' c = Some cs' -> cphase cs' = PU0 o ->
+  o = true /\ pend s' + 1 <= pend s.
+Proof.
+  intros H G Rk G' Ph'. cbn [step] in H. unfold cons_step in H. rewrite G in H.
+  destruct (cphase cs) as [o1|sn o1|sn r|sn|n| |] eqn:Ph; cbn [rank] in Rk; try lia; try discriminate.
+  - unfold poll_init in H. destruct (permit s) eqn:Ep; [|destruct (Nat.eqb_spec sn (calls s)) as [Ec|Ec]];
+      injection H as <-.
+    + change (get (setc c (with_phase (PU0 true)) s) c = Some cs') in G'.
+      rewrite (get_setc_same s c _ cs G) in G'. injection G' as <-. cbn in Ph'. injection Ph' as <-.
+      split; auto. pose proof (pend_setc s c (with_phase (PU0 true)) cs G) as E.
+      cbn [cphase with_phase ctk] in E.
+      assert (pend (set_permit false (setc c (with_phase (PU0 true)) s)) + 1
+              = pend (setc c (with_phase (PU0 true)) s)); [|lia].
+      unfold pend. cbn [permit calls conss setc set_conss set_permit]. rewrite Ep. cbn [b2n]. lia.
+    + change (get (setc c (with_phase (PParked NNone)) s) c = Some cs') in G'.
+      rewrite (get_setc_same s c _ cs G) in G'. injection G' as <-. discriminate.
+    + rewrite (get_setc_same s c _ cs G) in G'. injection G' as <-. cbn in Ph'. injection Ph' as <-.
+      split; auto. pose proof (pend_setc s c (with_phase (PU0 true)) cs G) as E.
+      cbn [cphase with_phase ctk] in E. rewrite Ph in E. cbn [ctk] in E. unfold stale in E.
+      destruct (Nat.eqb_spec sn (calls s)); [contradiction|lia].
+  - destruct n; try discriminate; injection H as <-;
+      rewrite (get_setc_same s c _ cs G) in G'; injection G' as <-; cbn in Ph'; injection Ph' as <-;
+      (split; auto); pose proof (pend_setc s c (with_phase (PU0 true)) cs G) as E;
+      cbn [cphase with_phase ctk] in E; rewrite Ph in E; cbn [ctk] in E; lia.
+Qed.
+
+Theorem pend_turn K s s' r rest :
+  step K s LTurn = Some s' -> mailbox s = r :: rest -> deleted s' = deleted s ->
+  pend s' <= pend s + (if notifying r && negb (deleted s) then 1 else 0).
+Proof.
+  intros H Em Hd. cbn [step] in H. unfold turn in H. destruct (exited s); [discriminate|].
+  rewrite Em in H. injection H as <-. cbv zeta in *. destruct (deleted s) eqn:Ed.
+  - rewrite andb_false_r. destruct r; try (unfold pend; cbn; lia). rewrite pend_deliver. unfold pend. cbn. lia.
+  - rewrite andb_true_r. destruct r as [n|c m|j|j|]; cbn [notifying].
+    + eapply Nat.le_trans; [apply pend_notify_one|]. unfold pend. cbn. lia.
+    + destruct (Nat.ltb 0 _).
+      * eapply Nat.le_trans; [apply pend_notify_one|]. rewrite pend_deliver. unfold pend. cbn. lia.
+      * rewrite pend_deliver. unfold pend. cbn. lia.
+    + unfold requeue. destruct (Nat.ltb 0 _).
+      * eapply Nat.le_trans; [apply pend_notify_one|]. unfold pend. cbn. lia.
+      * unfold pend. cbn. lia.
+    + unfold pend. cbn. lia.
+    + cbn in Hd. discriminate.
+Qed.
+
 (* ------------------------------------------------------------------ *)
 (* Executable quiescence check                                         *)
 
@@ -2017,6 +2147,7 @@ Proof. vm_compute. reflexivity. Qed.
 
 Print Assumptions notify_wf.
 Print Assumptions actor_wf.
+Print Assumptions notify_wf_sig.
 Print Assumptions C06_no_lost_wakeup_exact.
 Print Assumptions C06_no_lost_wakeup.
 Print Assumptions C06_lost_wakeup_unreachable.
@@ -2034,3 +2165,5 @@ Print Assumptions C15_outcomes.
 Print Assumptions C15_empty_reply_continues.
 Print Assumptions internal_terminates.
 Print Assumptions internal_run_bound.
+Print Assumptions restart_consumes.
+Print Assumptions pend_turn.
